@@ -206,6 +206,12 @@ where
         Self::with_params_and_hasher(w, d, buildhasher)
     }
 
+    /// Verification hook (only with `--cfg pdatastructs_verif`): copy of the flat counter table.
+    #[cfg(pdatastructs_verif)]
+    pub fn verif_table(&self) -> Vec<C> {
+        self.table.clone()
+    }
+
     /// Get number of columns of internal counter table.
     pub fn w(&self) -> usize {
         self.w
